@@ -141,6 +141,7 @@ func (P *Program) VerifyFunc(fn *ssa.Function) (res *FuncResult) {
 	exits := c.execBody(fr, st, "true")
 
 	returns := 0
+	var retReaches []string
 	for _, ex := range exits {
 		c.curReach = ex.reach
 		c.curFrame = ex.fr
@@ -256,6 +257,9 @@ func (P *Program) VerifyFunc(fn *ssa.Function) (res *FuncResult) {
 				}
 			}
 			c.curGroup = ""
+			if c.curReach != "false" {
+				retReaches = append(retReaches, c.curReach)
+			}
 		case "panic":
 			c.atAsserts(fr, ex, "panic")
 			if con != nil && con.MayPanic {
@@ -283,6 +287,16 @@ func (P *Program) VerifyFunc(fn *ssa.Function) (res *FuncResult) {
 	c.curReach = "true"
 	c.curTopBlock = -1
 	c.curEdgeFrom = -1
+	if con != nil && len(retReaches) > 0 && !con.NoReturn {
+		// vacuity guard: the assumptions made while executing the body (quantifier-free part) leave at least
+		// one normal return reachable; a contradiction among them would discharge every obligation. (Single
+		// returns may be dead for good reasons - a defensive branch the callee's contract excludes.)
+		c.curReach = or(retReaches...)
+		c.oblige("cover", name+"#cover[returns]", "", props, "false", fn.Pos(), "some normal return is reachable under the assumptions made (quantifier-free part)")
+		co := c.obls[len(c.obls)-1]
+		co.ExpectSat, co.QFCover, co.Trivial, co.Group = true, true, false, ""
+		c.curReach = "true"
+	}
 	_ = returns
 	if con != nil {
 		for _, a := range con.Asserts {
@@ -466,6 +480,9 @@ func (r *FuncResult) SMTx(o *Obligation, withModel bool, qf bool) string {
 		sb.WriteString(")\n")
 	}
 	if o.ExpectSat {
+		if o.QFCover && o.Reach != "true" {
+			sb.WriteString("(assert " + o.Reach + ")\n")
+		}
 		sb.WriteString("(check-sat)\n")
 		return sb.String()
 	}
@@ -602,6 +619,9 @@ func DischargeAll(results []*FuncResult, want func(*Obligation) bool, opt Discha
 				// stage A: without quantified assumptions (decidable fragment, fast, models are meaningful)
 				qfText := j.r.SMTx(j.o, false, true)
 				fullText := j.r.SMT(j.o, false)
+				if j.o.QFCover {
+					fullText = qfText
+				}
 				var best SolverResult
 				var qfRes *SolverResult
 				usedQF := false
